@@ -25,5 +25,7 @@ func controlsC05() []Control {
 		{Name: "has-chips refresh writes the seated-in flag", Expect: "R9", Mutate: replaceIn("(*seatManager).UpdatePlayerHasChips", "sm.SeatData[seatID].HasChips = hasChips", "sm.SeatData[seatID].IsIn = hasChips", 0)},
 		{Name: "eligibility query answers true for an unknown id", Expect: "R9", Mutate: replaceIn("(*seatManager).IsPlayerActive", "return false, err", "return true, err", 0)},
 		{Name: "positions never marked initialised", Expect: "R9", Mutate: replaceIn("(*seatManager).InitPositions", "\tsm.IsInit = true\n", "", 0)},
+		{Name: "rotation re-evaluates waiting with dealer and big blind swapped", Expect: "R6", Mutate: replaceIn("(*seatManager).rotatePositions", "sm.isBetweenDealerBB(tempNewDealerSeatID, newBBSeatID, seatID)", "sm.isBetweenDealerBB(newBBSeatID, tempNewDealerSeatID, seatID)", 0)},
+		{Name: "newly seated player has no chips", Expect: "R9", Mutate: replaceIn("(*seatManager).newSeatPlayer", "HasChips: true,", "HasChips: false,", 0)},
 	}
 }
